@@ -1676,7 +1676,7 @@ def probe_optional_union(ctx: vlib.Ctx, n: int):
 # the check
 # ---------------------------------------------------------------------------
 
-CODE_THEOREMS = ["C12_code_variants", "C12_code_exceptions", "C12_code_dispatcher"]
+CODE_THEOREMS = ["C12_code_variants", "C12_code_exceptions", "C12_code_dispatcher", "C12_code_registry_names"]
 THEOREMS = ["C12_registry_invariant", "C12_registry", "C12_missing_tag", "C12_present_keys_not_missing", "C12_nested_missing_key", "C12_multi_field", "C12_dispatch_ref", "C12_dispatch_ref_fmt", "C12_format_independent", "C12_format_reset", "C12_history_independent_full", "C12_uniq_all_decidable", "C12_registry_nested", "C12_nofield_nested", "C12_unhashable_tag", "C12_non_mapping", "C12_history_independent",
             "C12_eligible_exact", "C12_nofield", "C12_trace_event", "C12_tag_unique_decidable",
             "C12_nonunique_order_dependent", "C12_class_level_self_excluded",
@@ -1697,7 +1697,8 @@ def run(ctx: vlib.Ctx):
         "class-level dispatchers, classes without own tag, tag value spectrum (falsy, None, bool/int/float/enum collisions, "
         "unhashable values), 1-2 key names per history, two variant_tagger_fn functions (bare or list results), classes "
         "whose own from_dict leaks a KeyError; sites = Config root / Annotated holder field / holder with 2-3 discriminated "
-        "fields (one call, several sites) / BasicDecoder, over one class or a Union, 10 annotation shapes, holders in the "
+        "fields or with ONE Tuple field of 2-3 discriminated positions (one call, several sites; 60% with EQUAL Discriminator settings over "
+        "different bases, inputs carrying the sibling position's tags) / BasicDecoder, over one class or a Union, 10 annotation shapes, holders in the "
         "classes' module or in another one, call-time dialects incl. first calls (one model site per holder x dialect), "
         "codecs with default_dialect, FORMATS (35% of the histories: mixin roots / holders that also provide from_msgpack and "
         "orjson's from_json; calls in the three formats interleaved with definitions - one shared registry per class-level "
@@ -1725,6 +1726,9 @@ def run(ctx: vlib.Ctx):
         "+ helpers.iter_all_subclasses, both compared with /repo on every run (M)",
         "K12 additionally reads the exception structure of the field branch (six handlers, bases of the two error classes, whether "
         "the variant call is inside a guarded region); CPython's exception subclass relation is modelled in PyK_discr.subclass_of",
+        "K12 also translates `_get_variants_attr` of both builders into the parts of the registry attribute name (literal / field name / "
+        "fresh random_hex token / other; C12RegName.v): C12_code_registry_names = two annotated positions never share a registry "
+        "(the model keys registries by site), the class-level name is one constant; trusted: equal names have equal part tokens",
         "modelled, not verified: type.__subclasses__() order = definition order, dict overwrite/lookup by ==/hash, "
         "class attribute lookup in own __dict__, dataclass __init__ acceptance = all default-less fields present",
         "harness/props/c12.py: rendering of histories as Python source and as Coq terms; the independent oracle (issubclass + own __dict__)",
